@@ -126,7 +126,7 @@ def stress_docs():
     res.append('JSIGHT 0.3\nTYPE @t\xff any\nTYPE @t\xfe any\nGET /ok\n  200 @t\xff\n')
     # bytes that are not valid UTF-8 wherever a schema can hold text: notes, keys, values, type names, enum values
     res.append('JSIGHT 0.3\nTYPE @zcafe\n{\n  "cl\xe9": "val\xe9", // note \xe9\n  "n": 1, // not\xe9\n  "m": 2, // {min: 0}\n  "r": @zcafe // {optional: true}\n}\n'
-               'ENUM @e\n[\n  "v\xe9", // n\xe9\n  2\n]\nGET /ok // ann\xe9\n  Description\n    d\xe9sc\n  Query "q=\xe9"\n  {\n    "q": "v\xe9" // {enum: @e}\n  }\n  200 @zcafe\n')
+               'ENUM @e\n[\n  "v\xe9", // n\xe9\n  2\n]\nGET /ok // ann\xe9\n  Description\n    d\xe9sc \xff\n  Query "q=\xe9"\n  {\n    "q": "v\xe9" // {enum: @e}\n  }\n  200 @zcafe\n')
     # tags with descriptions, declared before and after the interactions that carry them, at every level
     for order in (0, 1):
         tags = 'TAG @t1 // first\n  Description\n    text of t1\nTAG @t2\n  Description\n  (\n    text of t2\n  )\nTAG @t3\n'
